@@ -267,7 +267,8 @@ Section Parser.
       match toks st with
       | TTLit (LInt u) _ sp :: r =>
           match u with
-          | Some n => POk (FIndex n) {| toks := r; ctr := ctr st; unx := unx st |}
+          | Some n => if index_fits n then POk (FIndex n) {| toks := r; ctr := ctr st; unx := unx st |}
+                      else PErr sp (ctr st)                  (* checked_index: "tuple index is too large" *)
           | None => PErr sp (ctr st)                         (* base10_parse::<usize>() fails *)
           end
       | TTIdent s sp :: r =>
@@ -304,14 +305,16 @@ Section Parser.
              else ret [ONamed s sp dot]
     | TTLit (LInt u) _ sp :: _ =>
         match u with
-        | Some n => advance 1 ;;; ret [OUnnamed n dot]
+        | Some n => if index_fits n then advance 1 ;;; ret [OUnnamed n dot] else fail_at sp
         | None => fail_at sp
         end
     | TTLit LFloat text _ :: _ =>
         match split_once_dot text with
         | Some (a, b) =>
             match parse_usize a, parse_usize b with
-            | Some i, Some j => advance 1 ;;; ret [OUnnamed i dot; OUnnamed j dot]
+            | Some i, Some j =>
+                if index_fits i && index_fits j then advance 1 ;;; ret [OUnnamed i dot; OUnnamed j dot]
+                else fail_at dot                            (* checked_index *)
             | _, _ => fail_at dot
             end
         | None => fail_at dot
@@ -687,7 +690,9 @@ Section Parser.
     | PFuel => TFuel
     end.
 
-  Definition fuel_for (ts : list ttree) : nat := S (S (tsizes ts)).
+  (* every call chain from one p_pattern to the next goes through at most four of the functions
+     above and consumes at least one token *)
+  Definition fuel_for (ts : list ttree) : nat := 4 * tsizes ts + 4.
   Definition parse_top (ts : list ttree) : top_result := parse_top_from (fuel_for ts) 0%N ts.
 
   (* the counter value left behind for the next invocation on the thread (used by the
